@@ -517,7 +517,7 @@ func observe() (o observation, fails []core.Failure) {
 	o.idResp = map[string]response{}
 	var parts []string
 	for _, id := range ids {
-		if routesToID("/id/"+id) && idCandidates(o.cfg, id) > 1 {
+		if ambiguousID(o.cfg, "/id/"+id) {
 			// which object /id/ reaches depends on Go's map iteration order
 			parts = append(parts, hexOf(id)+"=amb")
 			continue
@@ -653,8 +653,8 @@ func playHist(steps []step, o *core.Outcome, tags map[string]bool) (outs []strin
 			r := get(refPath)
 			pre = &r
 		}
-		if strings.HasPrefix(st.path, "/id/") && routesToID(st.path) {
-			if p := strings.Split(st.path, "/"); len(p) >= 3 && p[2] != "" && idCandidates(prev.cfg, p[2]) > 1 {
+		if strings.HasPrefix(st.path, "/id/") {
+			if ambiguousID(prev.cfg, st.path) {
 				// ambiguous id: the answer is not a function of the history; not executed
 				status = append(status, 0)
 				etags = append(etags, etagRec{})
@@ -737,6 +737,16 @@ func idCandidates(cfg any, key string) int {
 	}
 	walk(cfg)
 	return n
+}
+
+// ambiguousID: the mux hands the path to handleConfigID and the id it names (the third
+// path element) is carried by more than one object.
+func ambiguousID(cfg any, p string) bool {
+	if !routesToID(p) {
+		return false
+	}
+	parts := strings.Split(p, "/")
+	return len(parts) >= 3 && parts[2] != "" && idCandidates(cfg, parts[2]) > 1
 }
 
 // routesToID: the mux hands the path to handleConfigID (it is clean).
